@@ -98,17 +98,6 @@ Theorem html_rawtext_never_markup :
 Proof. exact html_rawtext_proof. Qed.
 Print Assumptions html_rawtext_never_markup.
 
-(* C09 refuted (found while proving the svg grammar) — "an svg subtree comes back as one SVG token": shiftXML knows no
-   comments, CDATA sections or processing instructions, so the element's end tag inside one ends the token:
-   <svg><!-- </svg> --><g/></svg>x gives the SVG token "<svg><!-- </svg>" and then Text " -->" (finding
-   c09-svg:comment-endtag). *)
-Theorem html_svg_comment_endtag_refuted :
-  let d := [60;115;118;103;62;60;33;45;45;32;60;47;115;118;103;62;32;45;45;62;60;103;47;62;60;47;115;118;103;62;120] in
-  exists tr, run no_tmpl 2 (new_lexer d) = Ok tr /\
-    map (fun r => (fst (fst r), snd (fst r))) tr = [(SvgT, Some (mkSl 0 16)); (TextT, Some (mkSl 16 4))] /\ len d = 31.
-Proof. exact html_svg_comment_endtag_refuted_proof. Qed.
-Print Assumptions html_svg_comment_endtag_refuted.
-
 (* C09 — script, double escape (full, no template delimiters): the content of a script element is ONE Text token that
    ends exactly where the rules designate.  Script.script_len reads the remaining input as script data: a
    "</script" followed by whitespace, '/', '>' or the end of input ends the content; "<!--" opens a section
@@ -227,15 +216,15 @@ Print Assumptions html_template_rawtext_converse.
    everything after its tag (last item); bogus comments "<?…>", "<!…>" (not starting with "--", "[CDATA[" or "doctype" in any ASCII case)
    and "</" + non-letter "…>"; svg / math / xml subtrees whose inside is accepted by Wf.xml_wf: read as tags and
    character data, quotes count only inside tags (attribute values may contain '>', "</svg>" and the other quote),
-   character data may contain quotes, nested tags and end tags of other elements, comments / processing
-   instructions / CDATA (their content is character data), no NUL, and no end tag of the element itself in
-   character data) the lexer, without template delimiters, returns exactly one token per construct
+   character data may contain quotes, nested tags and end tags of other elements; comments "<!--…-->", CDATA
+   sections "<![CDATA[…]]>" and processing instructions "<?…?>" are skipped whatever they contain (quotes, '<',
+   the element's own end tag; after fix f26ca9a); no NUL, and no end tag of the element itself in character data)
+   the lexer, without template delimiters, returns exactly one token per construct
    (one per tag part; raw content as ONE Text token; an svg/math subtree as ONE SVG/Math token), with the right
    type, the bytes of the construct, lower-cased Text()/AttrKey() and verbatim AttrVal(), followed by the
    end-of-input report.  [observe] reads type, token bytes, Text() and (for attributes) AttrVal() after each call.
    NOT covered by this theorem (correspondence + Go oracle only): raw
-   content that is empty or contains "</" (html_rawtext_never_markup says where such content ends), svg/math whose
-   comments / CDATA contain "</svg" (there the code deviates: html_svg_comment_endtag_refuted), unterminated constructs, text containing a '<' that opens nothing, names containing '/', templates. *)
+   content that is empty or contains "</" (html_rawtext_never_markup says where such content ends), unterminated constructs, text containing a '<' that opens nothing, names containing '/', templates. *)
 Theorem html_wellformed_tokens_partial :
   forall items, wf_doc items ->
     exists tr, run no_tmpl (length (doc_obs items) + 1) (new_lexer (doc_bytes items)) = Ok tr /\
